@@ -26,6 +26,15 @@ Tokens ==
     ValueBytes(MAXU64), <<49,56,52,52,54,55,52,52,48,55,51,55,48,57,53,53,49,54,49,54>> }
 Tails == { <<>>, <<0>>, <<0, 0>>, <<0, 1>>, <<49, 0>>, <<0, 8>>, <<97, 0, 0>> }
 
+\* "deep" mode: the token budget is spent after a well-formed head, so that the option area,
+\* trailing bytes and unterminated tails are reached within L tokens
+Heads == { <<0, 1, 97, 0>> \o OCTET \o <<0>>, <<0, 2, 0, 0>>, <<0, 6>>, <<0, 5, 0, 1>>, <<0, 1>> }
+DeepTokens == { <<0>>, <<49>>, <<43>>, <<97>>, <<255>>, BLKSIZE, Up(BLKSIZE), TSIZE,
+                <<49,56,52,52,54,55,52,52,48,55,51,55,48,57,53,53,49,54,49,54>> }
+NextDeep ==
+  \/ bs = <<>> /\ nt = 0 /\ \E pre \in Heads : bs' = pre /\ nt' = 1
+  \/ nt >= 1 /\ nt <= L /\ \E tok \in DeepTokens : bs' = bs \o tok /\ nt' = nt + 1
+
 InitBytes == bs = <<>> /\ nt = 0
 NextBytes ==
   \/ bs = <<>> /\ nt = 0 /\ \E pre \in Prefixes : bs' = pre /\ nt' = 1
@@ -58,8 +67,8 @@ Packets ==
 InitPackets == bs = <<>> /\ nt = 0
 NextPackets == nt = 0 /\ \E pk \in Packets : bs' = pk /\ nt' = 1
 
-Init == CASE Mode = "bytes" -> InitBytes [] Mode = "prefix" -> InitPrefix [] Mode = "packets" -> InitPackets
-Next == CASE Mode = "bytes" -> NextBytes [] Mode = "prefix" -> NextPrefix [] Mode = "packets" -> NextPackets
+Init == CASE Mode = "bytes" -> InitBytes [] Mode = "deep" -> InitBytes [] Mode = "prefix" -> InitPrefix [] Mode = "packets" -> InitPackets
+Next == CASE Mode = "bytes" -> NextBytes [] Mode = "deep" -> NextDeep [] Mode = "prefix" -> NextPrefix [] Mode = "packets" -> NextPackets
 Spec == Init /\ [][Next]_cvars
 
 PrintVector ==
